@@ -108,7 +108,7 @@ def run_(tier):
             if ref:
                 pre.append(dict(ref, pkey=c["pkey"], dkey=k, dclass=DCLASS.get(k.split("@")[0], "unknown")))
         o["calls"] = pre + o["calls"]
-    lines, byid = proto.to_trace(obs)
+    lines, byid = proto.to_trace(obs, "C09")
     rejected, tr = proto.validate_trace("c09", lines, timeout=1500)
     bycase = {c["id"]: c for c in cases}
     for rid in sorted(rejected):
@@ -278,7 +278,7 @@ def replay(path):
     c = dict(doc["case"]["case"])
     c.update({"id": "replay-0", "docs": DOCS, "dclasses": DCLASS})
     obs = vlib.run_harness("history", [c], "replay_c09", shards=1)
-    lines, byid = proto.to_trace(obs)
+    lines, byid = proto.to_trace(obs, "C09")
     rejected, _ = proto.validate_trace("replay_c09", lines)
     print(json.dumps([(x["entry"], x.get("dkey"), x["kind"], x.get("sha")) for x in obs[0]["calls"]]))
     if rejected:
